@@ -19,6 +19,7 @@
     `validUtf8 s`        `s` is well-formed UTF-8, i.e. a Rust `&str` (model of `str::from_utf8`, Model/TzParse);
     `isCharBoundary s k` `s.is_char_boundary(k)`; `BoundarySuffix s r`: `r` is `s` minus a well-formed prefix
                          (Spec/Utf8Spec.lean, property C15's byte-level vocabulary);
+    `truncatedTo sf z`   the value `z` with its sub-second part truncated to `sf`, leap-second flag kept;
     `parse_rfc3339T`     the strict scanner run in a writer monad that records every `&s[k..]` it evaluates
                          (Model/Rfc3339Slices.lean).
   Code: `Rfc3339.parse_from_rfc3339` = `DateTime::parse_from_rfc3339`, `Rfc3339.to_rfc3339_opts` =
@@ -29,6 +30,7 @@ import Chrono.Proofs.Rfc3339SignL
 import Chrono.Proofs.Rfc3339UniqueL
 import Chrono.Proofs.Rfc3339SlicesL
 import Chrono.Proofs.Rfc3339DataL
+import Chrono.Proofs.Rfc3339ExtraL
 import Chrono.Extracted.Rfc3339
 
 namespace Chrono.Props.C10
@@ -373,6 +375,74 @@ theorem roundtrip_exact (z : Zoned) (hz : ZInv z) (hoff : z.off % 60 = 0)
   obtain ⟨_, _, _, f1, f2⟩ := hz.1
   have hk := (kept_is_truncation sf (z.utc.time.frac % 1000000000).toNat (by omega)).2.2 hsf
   exact ⟨t, h1, by rw [← h6 hk hs]; exact h2⟩
+
+/-- **roundtrip_value.**  Every precision, leap seconds included, at the level of VALUES: for a value the
+public constructors can build (leap second only on second 59) the rendering at any of the five
+`SecondsFormat`s, with or without `Z`, parses back to exactly `truncatedTo sf z` — same date, same second,
+same offset, sub-second part truncated to the precision, and a leap-second representation stays a
+leap-second representation (`…:60`, `…:60.123`, … all read back as second 59 + 10⁹ ns + kept). -/
+theorem roundtrip_value (z : Zoned) (hz : ZInv z) (hoff : z.off % 60 = 0) (hy : WallYear0to9999 (wallSecs z))
+    (hs : TStrict z.utc.time) (sf : Format.SecondsFormat) (use_z : Bool) :
+    ∃ t, to_rfc3339_opts z sf use_z = .ok t ∧ parse_from_rfc3339 t = .ok (.ok (truncatedTo sf z)) :=
+  Proofs.Rfc3339X.roundtrip_value z hz hoff hy hs sf use_z
+
+/-- the five precisions on the leap second 2016-12-31T23:59:60.123456789Z seen at +05:30: what each keeps -/
+example :
+    let z : Zoned := ⟨⟨dateOfYo 2016 366, ⟨86399, 1123456789⟩⟩, 19800⟩
+    (ZInv z ∧ z.off % 60 = 0 ∧ WallYear0to9999 (wallSecs z) ∧ TStrict z.utc.time) ∧
+    (truncatedTo .secs z).utc.time = ⟨86399, 1000000000⟩ ∧ (truncatedTo .millis z).utc.time = ⟨86399, 1123000000⟩ ∧
+    (truncatedTo .micros z).utc.time = ⟨86399, 1123456000⟩ ∧ truncatedTo .nanos z = z ∧ truncatedTo .autoSi z = z := by
+  decide +kernel
+
+/-! ### The offset bound: ±23:59 -/
+
+/-- **offset_bound_exact.**  For a text of the grammar whose date and time of day are valid, acceptance
+by the strict reader is exactly: the minute field of the offset is a minute (`< 60`) and the offset, in
+seconds, lies within `±MAX_RFC3339_OFFSET` = ±(23·60+59)·60 — the `hh < 24` of `Valid` is the bound of the
+code.  So `+23:59`, `-23:59`, `−23:59` are the last offsets accepted; `+24:00`, `-24:00`, `+23:60` are not. -/
+theorem offset_bound_exact (s : List Nat) (f : Fields) (hm : Matches s f)
+    (hdt : validYmd f.year f.month f.day = true ∧ f.hour < 24 ∧ f.minute < 60 ∧ f.second ≤ 60) :
+    (∃ v, parse_from_rfc3339 s = .ok (.ok v)) ↔
+      (f.offM < 60 ∧ -Extracted.MAX_RFC3339_OFFSET ≤ offsetOf f ∧ offsetOf f ≤ Extracted.MAX_RFC3339_OFFSET) := by
+  rw [reader_accepts_iff]
+  constructor
+  · rintro ⟨g, hg, hv⟩
+    have e := matches_unique s g f hg hm
+    subst e
+    exact ⟨hv.2.2.2.2.2, (Proofs.Rfc3339X.offset_bound_iff g hv.2.2.2.2.2).mp hv.2.2.2.2.1⟩
+  · rintro ⟨h1, h2⟩
+    exact ⟨f, hm, hdt.1, hdt.2.1, hdt.2.2.1, hdt.2.2.2, (Proofs.Rfc3339X.offset_bound_iff f h1).mpr h2, h1⟩
+
+/-- every offset the writer is asked about (a `FixedOffset`, `|off| < 86400`, in whole minutes) is within the
+reader's bound, and the bound is attained: ±23:59 are whole-minute `FixedOffset`s -/
+theorem writer_offsets_within_reader_bound (off : Int) (h : OffValid off) (hm : off % 60 = 0) :
+    -Extracted.MAX_RFC3339_OFFSET ≤ off ∧ off ≤ Extracted.MAX_RFC3339_OFFSET := by
+  have hmax : Extracted.MAX_RFC3339_OFFSET = 86340 := by decide
+  unfold OffValid at h
+  rw [hmax]; omega
+
+/-- non-vacuity / the boundary itself: fields with offsets `+23:59`, `-23:59` are within the bound, `+24:00`,
+`-24:00` and (minute 60) `+23:60` are not; ±86340 s are whole-minute `FixedOffset`s, 86400 is not a `FixedOffset` -/
+example :
+    (let b (neg : Bool) (h m : Nat) : Bool :=
+      let f : Fields := ⟨2015, 1, 20, 17, 35, 20, [], false, neg, h, m⟩
+      decide (f.offM < 60 ∧ -Extracted.MAX_RFC3339_OFFSET ≤ offsetOf f ∧ offsetOf f ≤ Extracted.MAX_RFC3339_OFFSET)
+     b false 23 59 = true ∧ b true 23 59 = true ∧ b false 24 0 = false ∧ b true 24 0 = false ∧
+     b false 23 60 = false ∧ b false 0 0 = true ∧ b true 0 0 = true) ∧
+    (OffValid 86340 ∧ OffValid (-86340) ∧ (86340 : Int) % 60 = 0 ∧ ¬ OffValid 86400) := by
+  decide +kernel
+
+/-! ### The `%+` formatting item -/
+
+/-- **plus_item_is_to_rfc3339.**  `dt.format("%+")` of a `DateTime<FixedOffset>` (written into a `String` and
+unwrapped, as `to_string()` does) is `dt.to_rfc3339()` for EVERY value — so all writer theorems above hold
+for the `%+` item; and `%+` applied to a value without an offset (`NaiveDateTime`, `NaiveDate`, `NaiveTime`)
+is a formatting error (`Err(fmt::Error)`), never a text. -/
+theorem plus_item_is_to_rfc3339 (z : Zoned) (dt : NaiveDT) (d : Date) (t : Time) :
+    expectText (ParseFrom.format (.zoned z) [37, 43]) = to_rfc3339 z ∧
+    ParseFrom.format (.naive dt) [37, 43] = Format.werr ∧ ParseFrom.format (.date d) [37, 43] = Format.werr ∧
+    ParseFrom.format (.time t) [37, 43] = Format.werr :=
+  ⟨Proofs.Rfc3339X.plus_format_zoned z, Proofs.Rfc3339X.plus_format_naive dt d t⟩
 
 /-- non-vacuity of the writer and round-trip theorems: the leap second 2016-12-31T23:59:60.5Z seen at
 +05:30 (wall clock 2017-01-01T05:29:60.5), the first and the last second of the years 0–9999 seen
